@@ -801,5 +801,5 @@ func checkReadmission(e *Engine, r *Report) {
 				"AllocateResources is called only for the container being created, an element of Sync's add list, or the subject of an update", e.InstrPos(in), fn, kind != "", kind, true)
 		})
 	}
-	r.MinInstances("AllocateResources call sites", na, 5)
+	r.MinInstances("AllocateResources call sites", na, 3)
 }
